@@ -38,6 +38,8 @@ pub(crate) struct Parser {
     input_order: Vec<Name>,
     /// Used to avoid parsing the same schema twice
     parsed_schemas: Names,
+    /// The full names defined by the schemas parsed so far, a name may be defined only once
+    defined_names: HashSet<Name>,
 }
 
 impl Parser {
@@ -51,6 +53,7 @@ impl Parser {
             resolving_schemas: HashMap::default(),
             input_order,
             parsed_schemas,
+            defined_names: HashSet::default(),
         }
     }
 
@@ -474,6 +477,15 @@ impl Parser {
         }
     }
 
+    /// A named type may be defined only once: a second definition of the same full name is ambiguous.
+    fn register_definition(&mut self, name: &Name) -> AvroResult<()> {
+        if self.defined_names.insert(name.clone()) {
+            Ok(())
+        } else {
+            Err(Details::AmbiguousSchemaDefinition(name.clone()).into())
+        }
+    }
+
     fn register_resolving_schema(&mut self, name: &Name, aliases: &Aliases) {
         let resolving_schema = Schema::Ref { name: name.clone() };
         self.resolving_schemas
@@ -551,6 +563,7 @@ impl Parser {
         }
 
         let fully_qualified_name = Name::parse(complex, enclosing_namespace)?;
+        self.register_definition(&fully_qualified_name)?;
         let aliases =
             self.fix_aliases_namespace(complex.aliases(), fully_qualified_name.namespace())?;
 
@@ -625,6 +638,7 @@ impl Parser {
         }
 
         let fully_qualified_name = Name::parse(complex, enclosing_namespace)?;
+        self.register_definition(&fully_qualified_name)?;
         let aliases =
             self.fix_aliases_namespace(complex.aliases(), fully_qualified_name.namespace())?;
 
@@ -774,6 +788,7 @@ impl Parser {
         }?;
 
         let fully_qualified_name = Name::parse(complex, enclosing_namespace)?;
+        self.register_definition(&fully_qualified_name)?;
         let aliases =
             self.fix_aliases_namespace(complex.aliases(), fully_qualified_name.namespace())?;
 
